@@ -147,7 +147,7 @@ def run_harness(unit_rs, harness, workdir, default_timeout=600, rss_cap=14 << 30
            "--target-dir", tdir]
     # (harness names are unique across a unit, the filter is a substring match on the path)
     # exact, fully qualified: a substring filter would also run pad_arr_ae2 for pad_arr_a
-    cmd = ["kani", os.path.basename(unit_rs), "--harness", "u::vharness::" + name, "--exact", "--target-dir", tdir]
+    cmd = ["kani", os.path.basename(unit_rs), "--harness", harness.get("prefix", "u::vharness::") + name, "--exact", "--target-dir", tdir]
     if playback:
         cmd += ["-Z", "concrete-playback", "--concrete-playback=print"]
     extra = harness.get("args")
